@@ -28,3 +28,15 @@ claim('C10',
       'Trusts the Cython-subset front end, the IDL reader and the compact-protocol type-nibble table; '
       '.pyx defects cannot be repaired here (Cython absent) and are known findings.',
       'DESIGN.md 5/C10')
+
+claim('C02',
+      'value-numbered path walk for size-field provenance, CFG typestate for footer framing, construction sites vs IDL',
+      'in write_column every page header size/count field equals the lengths of exactly the buffer versions '
+      'written after it (840 intra-iteration paths), the diff accumulator and chunk totals/offsets are f.tell() '
+      'values at the right typestate; every footer writer emits thrift, 4-byte LE length of that thrift, magic, '
+      'and starts a fresh file with the magic; every metadata construction site uses IDL field names, marks '
+      'exactly the 32-bit fields and stores no bool into an integer field; encodings/codec bookkeeping matches '
+      'the page loop; num_rows follows every replaced row-group list; file_path is stored on every chunk.',
+      'bit-level content of levels/values and decoding by an independent reader (none is installed)',
+      'Trusts the value-numbering walker (syntactic equality of linear length forms), the CFG and the IDL reader.',
+      'DESIGN.md 5/C02')
